@@ -15,7 +15,8 @@ EXTENDS Naturals, Sequences, FiniteSets, TLC, Json
 
 CONSTANTS Kinds, Wrappers, MaxLen,
           DevFilterSkips,       \* a seeded change: removing a node while iterating skips the next sibling
-          DevAngleNoGate        \* a seeded change: the include gate is skipped for <...> paths
+          DevAngleNoGate,       \* a seeded change: the include gate is skipped for <...> paths
+          DevFilterLastSection  \* a seeded change: the post-filter starts at the renderer's current node (the last section)
 
 RawRender == {"html_block", "html_inline", "hardbreak", "strike"}          \* the renderer itself emits raw nodes
 RawSelf == {"raw_dir", "evalrst_raw", "evalrst_rawrole"}                   \* docutils' own code checks raw_enabled
@@ -46,7 +47,9 @@ Render ==
                   [] kind \in FileSelf -> IF fileOn THEN <<Node("ins", pos)>> ELSE <<Node("warn", pos)>>
                   [] kind = "raw_file" -> IF ~rawOn THEN <<Node("warn", pos)>>
                                           ELSE IF ~fileOn THEN <<Node("warn", pos)>> ELSE <<Node("raw", pos)>>
-     IN /\ tree' = tree \o out \o <<Node("marker", pos)>>
+         \* wrapper "sec": the construct sits in a section of its own that is followed by another section
+         body == out \o <<Node("marker", pos)>>
+     IN /\ tree' = tree \o (IF doc[pos][2] = "sec" THEN <<Node("heading", pos)>> \o body \o <<Node("heading", pos)>> ELSE body)
         /\ reads' = IF \/ (kind \in FileMock \cup FileSelf /\ (fileOn \/ (DevAngleNoGate /\ kind = "include_angle")))
                        \/ (kind = "raw_file" /\ rawOn /\ fileOn)
                     THEN reads \cup {pos} ELSE reads
@@ -65,8 +68,12 @@ FilterSkippy(t, run) ==
        THEN IF run >= 2 THEN <<Head(t)>> \o FilterSkippy(Tail(t), 0)
             ELSE <<Node("warn", Head(t).c)>> \o FilterSkippy(Tail(t), run + 1)
        ELSE <<Head(t)>> \o FilterSkippy(Tail(t), IF Head(t).k = "marker" THEN run ELSE 0)
+(* the part of the tree below the last heading: what a sweep starting at current_node would see *)
+LastHeading == LET H == {n \in 1..Len(tree) : tree[n].k = "heading"} IN IF H = {} THEN 0 ELSE CHOOSE n \in H : \A m \in H : m <= n
 PostFilter == /\ pc = "filter"
-              /\ tree' = IF rawOn THEN tree ELSE IF DevFilterSkips THEN FilterSkippy(tree, 0) ELSE FilterFrom(tree)
+              /\ tree' = IF rawOn THEN tree ELSE IF DevFilterSkips THEN FilterSkippy(tree, 0)
+                         ELSE IF DevFilterLastSection THEN SubSeq(tree, 1, LastHeading) \o FilterFrom(SubSeq(tree, LastHeading + 1, Len(tree)))
+                         ELSE FilterFrom(tree)
               /\ pc' = "done" /\ UNCHANGED <<doc, rawOn, fileOn, pos, reads>>
 
 Next == Render \/ RenderEnd \/ PostFilter
